@@ -41,12 +41,12 @@ pub fn run(ctx: &Ctx, id: &str) -> i32 {
         return replay(ctx, id, path);
     }
     let plan = match (prop, ctx.quick()) {
-        (Prop::C01 | Prop::C03, true) => Plan { per_type_random: 300, per_field_alone: 16, all_present: 8, mutation_bases: 0, max_perms: 0, big: true },
-        (Prop::C01 | Prop::C03, false) => Plan { per_type_random: 20_000, per_field_alone: 64, all_present: 64, mutation_bases: 0, max_perms: 0, big: true },
-        (Prop::C13, true) => Plan { per_type_random: 24, per_field_alone: 1, all_present: 2, mutation_bases: 40, max_perms: 120, big: false },
-        (Prop::C13, false) => Plan { per_type_random: 400, per_field_alone: 4, all_present: 8, mutation_bases: 600, max_perms: 720, big: false },
-        (Prop::C14, true) => Plan { per_type_random: 40, per_field_alone: 2, all_present: 2, mutation_bases: 80, max_perms: 0, big: false },
-        (_, _) => Plan { per_type_random: 1500, per_field_alone: 8, all_present: 8, mutation_bases: 3000, max_perms: 0, big: true },
+        (Prop::C01 | Prop::C03, true) => Plan { per_type_random: 2_000, per_field_alone: 16, all_present: 8, mutation_bases: 0, max_perms: 0, big: true },
+        (Prop::C01 | Prop::C03, false) => Plan { per_type_random: 50_000, per_field_alone: 64, all_present: 64, mutation_bases: 0, max_perms: 0, big: true },
+        (Prop::C13, true) => Plan { per_type_random: 200, per_field_alone: 2, all_present: 4, mutation_bases: 300, max_perms: 720, big: false },
+        (Prop::C13, false) => Plan { per_type_random: 4000, per_field_alone: 8, all_present: 16, mutation_bases: 5000, max_perms: 720, big: false },
+        (Prop::C14, true) => Plan { per_type_random: 400, per_field_alone: 4, all_present: 4, mutation_bases: 600, max_perms: 0, big: false },
+        (_, _) => Plan { per_type_random: 6000, per_field_alone: 16, all_present: 16, mutation_bases: 10_000, max_perms: 0, big: true },
     };
     report.rule = match prop {
         Prop::C01 => "55 shipped struct types x canonical values (fixed points of the reference codec): systematic presence masks (all absent, each optional field alone x N, all present) then random masks; numbers at digit-count boundaries, text/hex/bytes at the limits of every prefix style incl. 64 KiB. Case = (type, reference encoding B). x = T::decode(B); judged: decode(encode(x)) == x with the type's own PartialEq, nothing left over, and Debug still equal to the value's rendering. Non-trivial = non-empty body; distinct by hash of (type, B).",
